@@ -192,24 +192,4 @@ extern "C" int w_binvrow_row(int r, R* coef, int* ninds, int has_ninds, int unsc
    return h.body() ? 1 : 0;
 }
 #endif
-
-#if defined(INST_MULTT_ROW)
-struct H : Host
-{
-   R* vec; bool unscale;
-   bool body()
-   {
-#include SLICE
-      return true;
-   }
-};
-extern "C" int w_multt_row(R* vec, int unscale, int n, int nc, int isScaled, int* rowexp, int* colexp, R* s1, int* bind, R* dsv, int* dsi)
-{
-   VIN("n", n); VIN("nc", nc); VIN("unscale", unscale); VIN("isScaled", isScaled);
-   Env e; H h;
-   e.init(h, n, nc, isScaled, 0, 0, rowexp, colexp, s1, 0, 0, bind, dsv, dsi);
-   h.vec = vec; h.unscale = unscale != 0;
-   gp_vec = vec;
-   return h.body() ? 1 : 0;
-}
-#endif
+/* (multBasisTranspose_row lives in unit_dense.cpp) */
